@@ -273,13 +273,16 @@ def _plan(prop, T):
     if prop == "C12":
         return dict(
             jobs=[
+                dict(flavour="dbg", suite="ord-closure", args=dict(mon="none", twin=1, sets=("maptree:9:8,settree:9:0,maplist:9:0,setlist:9:1,maptree:8:1,settree:8:9,maplist:10:8,setlist:10:0" if T else "maptree:7:8,settree:7:0,maplist:7:0,setlist:7:1,maptree:6:1,settree:6:9,maplist:8:8,setlist:8:0")), shards=8, timeout=3000 if T else 120),
+                dict(flavour="dbg", suite="key-closure", args=dict(mon="none", twin=1, coll="tree", sets=(KEY_SETS_THOROUGH if T else KEY_SETS_QUICK)), shards=nsets(KEY_SETS_THOROUGH if T else KEY_SETS_QUICK), timeout=3000 if T else 120),
+                dict(flavour="dbg", suite="key-closure", args=dict(mon="none", twin=1, coll="list", sets=(KEY_SETS_THOROUGH if T else KEY_SETS_QUICK)), shards=nsets(KEY_SETS_THOROUGH if T else KEY_SETS_QUICK), timeout=3000 if T else 120),
                 dict(flavour="dbg", suite="clear-twin", args=dict(), shards=16, budget=14000 * 10 * (8 if T else 1)),
                 dict(flavour="rel", suite="clear-twin", args=dict(), shards=16, budget=21000 * 10 * (8 if T else 1), seed_offset=9),
                 miri("clear-twin", 28, 7, T, small=1),
             ],
             rule="evaluation = one operation executed after clear() on the cleared instance and on a freshly constructed twin (other capacity hint) with identical observations required (values by id offset, handles by dereferenced entry), reference model alongside; distinct non-trivial = distinct (history, suffix position)",
             require={"clears_checked": 10000, "clears_of_empty_collection": 500, "repeated_clears": 100},
-            exhaustive_scope="sampled (prefix, suffix) pairs on all seven collections",
+            exhaustive_scope="sampled (prefix, suffix) pairs on all seven collections; and every closed state of the six tree / list collections over the listed key universes as the prefix (expired-but-unremoved entries, used free lists, grown arenas included) x scripted suffixes with the clock restarted at 0",
             assumptions=["numeric handle values are not compared (a cleared arena hands out slots in another order)"],
         )
     if prop == "C13":
